@@ -767,7 +767,8 @@ class Messenger(Connection):
                 # Either case, TLS handshake begins
                 try:
                     self.secure(self._config.get_ssl_context())
-                except ssl.SSLError as err:
+                except OSError as err:
+                    # an ssl.SSLError, or the error of a socket whose peer is gone
                     self._logger.error('TLS failed: %s', err)
                     self.close()
                     return
